@@ -20,6 +20,8 @@ def scene(seed):
         xr = (x - cx) * math.cos(th) + (y - cy) * math.sin(th)
         yr = -(x - cx) * math.sin(th) + (y - cy) * math.cos(th)
         d += a * np.exp(-0.5 * ((xr / sx) ** 2 + (yr / sy) ** 2))
+    # a close companion of the first source (blended with it: deblended segments touch, each Kron aperture holds pixels of the other label)
+    d += 55.0 * np.exp(-0.5 * (((x - 22.6) / 1.5) ** 2 + ((y - 17.9) / 1.5) ** 2))
     d += rng.normal(0, 0.6, (h, w))
     d[12, 40:44] += 40.0          # thin streaks (one pixel wide): degenerate second moments
     d[30:33, 46] += 40.0
@@ -57,8 +59,18 @@ def api_aperture_photometry(d, e, m, pos, tr):
     from photutils.aperture import EllipticalAperture, aperture_photometry
     th = 0.6 if tr[0] != 'transpose' else math.pi / 2 - 0.6
     t = aperture_photometry(d, EllipticalAperture(pos, 4.0, 2.5, theta=th), error=e, mask=m)
-    return [col('xcenter', 'x', t['xcenter'], partner=2), col('ycenter', 'y', t['ycenter'], partner=1), col('aperture_sum', 'free', t['aperture_sum'], tol=4),
-            col('aperture_sum_err', 'free', t['aperture_sum_err'], tol=4)], {}
+    cols = [col('xcenter', 'x', t['xcenter'], partner=2), col('ycenter', 'y', t['ycenter'], partner=1), col('aperture_sum', 'free', t['aperture_sum'], tol=4),
+            col('aperture_sum_err', 'free', t['aperture_sum_err'], tol=4)]
+    # rotated shapes in every quadrant of the rotation angle (theta -> 90 deg - theta under transposition; w and h keep their meaning)
+    from photutils.aperture import EllipticalAnnulus, RectangularAnnulus, RectangularAperture
+    for k, deg in enumerate((101.0, 160.0, -30.0, -75.0, 200.0)):
+        a = math.radians(deg if tr[0] != 'transpose' else 90.0 - deg)
+        aps = [RectangularAperture(pos, 7.0, 3.0, theta=a), RectangularAnnulus(pos, 4.0, 9.0, 6.0, theta=a), EllipticalAnnulus(pos, 2.0, 5.0, 3.0, theta=a)]
+        for j, method in enumerate(('exact', 'center', 'subpixel')):
+            tt = aperture_photometry(d, aps[(k + j) % 3], error=e, mask=m, method=method, subpixels=3)
+            cols.append(col(f'rot{k}_{method}_sum', 'free', tt['aperture_sum'], tol=4))
+            cols.append(col(f'rot{k}_{method}_err', 'free', tt['aperture_sum_err'], tol=4))
+    return cols, {}
 
 
 def api_aperture_stats(d, e, m, pos, tr):
